@@ -50,31 +50,11 @@ pub fn iseqalias(a: &[&str]) -> Option<String> {
 }
 
 fn greedy_count(hay: &[u8], needle: &[u8], rev: bool) -> usize {
-    let mut k = 0;
     if rev {
-        let mut bound = Some(hay.len());
-        while let Some(b) = bound {
-            match naive_rfind(&hay[..b], needle) {
-                None => break,
-                Some(i) => {
-                    k += 1;
-                    bound = if needle.is_empty() { i.checked_sub(1) } else { Some(i) };
-                }
-            }
-        }
+        crate::ops3::greedy_rev(hay, needle).len()
     } else {
-        let mut pos = 0;
-        while pos <= hay.len() {
-            match naive_find(&hay[pos..], needle) {
-                None => break,
-                Some(i) => {
-                    k += 1;
-                    pos += i + needle.len().max(1);
-                }
-            }
-        }
+        crate::ops3::greedy_fwd(hay, needle).len()
     }
-    k
 }
 
 /// `finderops <cfg> <pf> <needle> <ops>` / `finderrevops <cfg> <needle> <ops>`; ops
